@@ -200,7 +200,7 @@ def gen_content_op(rng, name, scope_enc, pool=None, big=False):
         k = rng.below(8)
 
         if k < 5:
-            op['indent'] = [0, 1, 2, 4, 7, 40][rng.below(6)]
+            op['indent'] = [0, 1, 2, 4, 7, 40, 3, None][rng.below(8)]
         # else: default indent (4)
 
         if rng.chance(0.5):
@@ -568,7 +568,9 @@ def gen_stream(rng):
 
 
 def gen_stream_extras(rng):
-    """{'prefix': n, 'late_rewind': bool}: how the stream is handed over."""
+    """{'prefix': n, 'late_rewind': bool, 'seek_none': bool, 'mutate': n}:
+    how the stream is handed over and what the consumer does with the
+    records it gets."""
     d = {}
 
     if rng.chance(0.12):
@@ -576,5 +578,12 @@ def gen_stream_extras(rng):
 
     if rng.chance(0.06):
         d['late_rewind'] = True
+
+    if rng.chance(0.06):
+        d['seek_none'] = True       # seek() returns nothing (mmap < 3.13)
+
+    if rng.chance(0.08):
+        # the consumer edits the records it was handed
+        d['mutate'] = rng.randint(1, 4)
 
     return d
